@@ -91,7 +91,11 @@ def observe(text):
     obs = {}
     p = Parser()
     try:
-        ok = p.parse(text)
+        with lang.time_limit(8):
+            ok = p.parse(text)
+    except lang.CompilerHangs as ex:
+        obs['raises'] = 'CompilerHangs: ' + str(ex)
+        return obs
     except Exception as ex:
         obs['raises'] = type(ex).__name__ + ': ' + str(ex)[:100]
         return obs
@@ -106,7 +110,8 @@ def observe(text):
         obs['key'] = 'R#' + (m.group(1) if m else '?')
     try:
         job = ScriptJob()
-        job.load_string(text)
+        with lang.time_limit(8):
+            job.load_string(text)
         obs['job_program_none'] = job.program is None
     except Exception as ex:
         obs['raises'] = 'ScriptJob: ' + type(ex).__name__
